@@ -13,6 +13,7 @@ import (
 	"verifharness/world"
 
 	"github.com/google/go-tdx-guest/verify"
+	"google.golang.org/protobuf/proto"
 )
 
 func init() { Registry["C07"] = c07 }
@@ -279,6 +280,36 @@ func c07Jobs(x *mon.Ctx, base *world.World) []*world.Case {
 		w.Qe.Levels = mk(ls...)
 		emit(w, "levels-3-4", name(ls...)+fmt.Sprint("#", i), "")
 	}
+	// a level without a tcbStatus member is not UpToDate
+	for i, ls := range [][]world.IsvLevel{
+		{{Isv: uint32(base.P.QeIsvSvn), NoStatus: true}},
+		{{Isv: uint32(base.P.QeIsvSvn) - 1, NoStatus: true}},
+		{{Isv: 0, NoStatus: true}},
+		{{Isv: uint32(base.P.QeIsvSvn), NoStatus: true}, {Isv: 0, Status: "UpToDate"}},
+		{{Isv: uint32(base.P.QeIsvSvn) + 1, Status: "UpToDate"}, {Isv: uint32(base.P.QeIsvSvn), NoStatus: true}},
+		{{Isv: uint32(base.P.QeIsvSvn) + 1, Status: "UpToDate"}, {Isv: uint32(base.P.QeIsvSvn), NoStatus: true}, {Isv: 0, Status: "UpToDate"}},
+	} {
+		w := base.Clone()
+		w.Qe.Levels = ls
+		emit(w, "level-without-status", fmt.Sprint(i), "reject")
+	}
+	// a caller-built message whose QE ISVSVN differs from the signed one only above bit 15 (the wire format has 16 bits): the
+	// level must be selected by what the PCK key signed
+	for _, k := range []uint32{1, 2, 0xffff} {
+		for _, up := range []uint32{1, 2, 60000} {
+			if uint32(base.P.QeIsvSvn)+up > 65535+k*65536 {
+				continue
+			}
+			w := base.Clone()
+			w.Qe.Levels = []world.IsvLevel{{Isv: uint32(base.P.QeIsvSvn) + up, Status: "UpToDate"}, {Isv: 0, Status: "OutOfDate"}}
+			emit(w, "message-isvsvn-wider-than-signed", fmt.Sprintf("+%d*65536/level+%d", k, up), "reject")
+			c := out[len(out)-1]
+			if m := mon.MessageFor("built", c.Quote); m != nil {
+				m.SignedData.CertificationData.QeReportCertificationData.QeReport.IsvSvn += k * 65536
+				c.Msg, _ = proto.Marshal(m)
+			}
+		}
+	}
 	// report ISVSVN moved against fixed levels (byte-order traps)
 	for _, v := range []uint16{0, 1, 0x00ff, 0x0100, 0xff00, 0xffff} {
 		for _, lv := range []uint32{0, 1, 0x00ff, 0x0100, 0xff00, 0xffff} {
@@ -333,6 +364,8 @@ func c07(x *mon.Ctx) {
 	x.Require("attributes-bit-covered-by-mask", 0, 128, 128)
 	x.Require("attributes-bit-hidden-by-mask", 128, 0, 128)
 	x.Require("mrsigner-bit", 0, 256, 256)
+	x.Require("level-without-status", 0, 6, 6)
+	x.Require("message-isvsvn-wider-than-signed", 0, 6, 6)
 	x.Require("levels-1", 2, 19, 21)
 	x.Require("levels-2", 40, 380, 441)
 	x.Extra["exhaustive_1_and_2_level_space"] = true
